@@ -534,6 +534,16 @@ class CFGBuilder:
         self._uid += 1
         return self._uid
 
+    def _back(self, pending: Pending, head: int, st: ast.AST) -> None:
+        """Back edges of a loop; a branch's true/false label is preserved through a join node."""
+        for s, l in pending:
+            if l in ("true", "false"):
+                j = self.new("join", None, st)
+                self.g.add_edge(s, j, l)
+                self.g.add_edge(j, head, "back")
+            else:
+                self.g.add_edge(s, head, "back")
+
     def _while(self, st: ast.While, pending: Pending) -> Pending:
         uid = self._next_uid()
         head = self.new("loop_head", st, st)
@@ -544,8 +554,7 @@ class CFGBuilder:
         self.frames.append(Frame("loop", st, "body", None, uid))
         bp = self.stmts(st.body, t)
         self.frames.pop()
-        for s, _l in bp:
-            self.g.add_edge(s, head, "back")
+        self._back(bp, head, st)
         if st.orelse:
             f = self.stmts(st.orelse, f)
         self.connect(f, after)
@@ -569,8 +578,7 @@ class CFGBuilder:
         self.frames.append(Frame("loop", st, "body", None, uid))
         bp = self.stmts(st.body, [(head, "true")])  # type: ignore[attr-defined]
         self.frames.pop()
-        for s, _l in bp:
-            self.g.add_edge(s, head, "back")
+        self._back(bp, head, st)
         f: Pending = [(head, "false")]
         if st.orelse:  # type: ignore[attr-defined]
             f = self.stmts(st.orelse, f)  # type: ignore[attr-defined]
